@@ -1283,8 +1283,11 @@ impl Server {
             None
         };
         
-        // Log to AOF for write commands
-        if self.is_write_command(&command_name) {
+        // Log to AOF for write commands. Commands with a random outcome are logged after they
+        // ran, by that outcome (see SPOP and XADD below), so that a replay reproduces it.
+        let logged_by_outcome = command_name == "SPOP"
+            || (command_name == "XADD" && matches!(parts.get(2), Some(RespFrame::BulkString(Some(b))) if b.as_slice() == b"*"));
+        if self.is_write_command(&command_name) && !logged_by_outcome {
             self.append_to_aof(db, parts);
         }
         
@@ -1452,7 +1455,23 @@ impl Server {
             "SINTER" => crate::storage::commands::sets::handle_sinter(&self.storage, db, parts),
             "SDIFF" => crate::storage::commands::sets::handle_sdiff(&self.storage, db, parts),
             "SRANDMEMBER" => crate::storage::commands::sets::handle_srandmember(&self.storage, db, parts),
-            "SPOP" => crate::storage::commands::sets::handle_spop(&self.storage, db, parts),
+            "SPOP" => {
+                let result = crate::storage::commands::sets::handle_spop(&self.storage, db, parts);
+                
+                // Logged as the removal of exactly the members that were popped
+                let popped: Vec<RespFrame> = match &result {
+                    Ok(member @ RespFrame::BulkString(Some(_))) => vec![member.clone()],
+                    Ok(RespFrame::Array(Some(members))) => members.clone(),
+                    _ => Vec::new(),
+                };
+                if !popped.is_empty() && parts.len() >= 2 {
+                    let mut logged = vec![RespFrame::from_string("SREM"), parts[1].clone()];
+                    logged.extend(popped);
+                    self.append_to_aof(db, &logged);
+                }
+                
+                result
+            },
             // Hash commands
             "HSET" => crate::storage::commands::hashes::handle_hset(&self.storage, db, parts),
             "HGET" => crate::storage::commands::hashes::handle_hget(&self.storage, db, parts),
@@ -1482,7 +1501,20 @@ impl Server {
             "ZPOPMAX" => self.handle_zpopmax(parts, db),
             
             // Stream commands
-            "XADD" => crate::storage::commands::streams::handle_xadd(&self.storage, db, parts),
+            "XADD" => {
+                let result = crate::storage::commands::streams::handle_xadd(&self.storage, db, parts);
+                
+                // An auto-generated ID is logged as the ID that was assigned
+                if logged_by_outcome {
+                    if let Ok(id @ RespFrame::BulkString(Some(_))) = &result {
+                        let mut logged = parts.to_vec();
+                        logged[2] = id.clone();
+                        self.append_to_aof(db, &logged);
+                    }
+                }
+                
+                result
+            },
             "XRANGE" => crate::storage::commands::streams::handle_xrange(&self.storage, db, parts),
             "XREVRANGE" => crate::storage::commands::streams::handle_xrevrange(&self.storage, db, parts),
             "XLEN" => crate::storage::commands::streams::handle_xlen(&self.storage, db, parts),
